@@ -65,10 +65,14 @@ def strip_comments(text: str) -> str:
     return "".join(out)
 
 
-def forbidden_tokens() -> list[str]:
-    """Occurrences of Admitted/Axiom/... in any hand-written or generated .v file (comments stripped)."""
+def forbidden_tokens(roots: list[str] | None = None) -> list[str]:
+    """Occurrences of Admitted/Axiom/... in the .v files the given roots depend on (all project files
+    when roots is None); comments stripped."""
     hits = []
-    for rel in project_files():
+    files = project_files()
+    if roots is not None:
+        files = sorted({f for r in roots for f in deps_closure(r)})
+    for rel in files:
         body = strip_comments((COQ / rel).read_text())
         for n, line in enumerate(body.splitlines(), 1):
             m = FORBIDDEN.search(line)
@@ -80,14 +84,16 @@ def forbidden_tokens() -> list[str]:
 def deps_closure(rel_v: str) -> list[str]:
     """Project files a .v file transitively depends on (from `From Ropt Require Import` lines)."""
     seen, todo = [], [rel_v]
-    pat = re.compile(r"From\s+Ropt\s+Require\s+(?:Import|Export)\s+([^.]*(?:\.[A-Za-z_][\w]*)*[^.]*)\.\s", re.S)
     while todo:
         f = todo.pop()
         if f in seen or not (COQ / f).exists():
             continue
         seen.append(f)
         text = strip_comments((COQ / f).read_text())
-        for m in re.finditer(r"From\s+Ropt\s+Require\s+(?:Import|Export)\s+((?:[\w.]+\s*)+)\.", text):
+        for m in re.finditer(r"From\s+Ropt\s+Require\s+(?:Import|Export)\s+([^\n]*?)\.\s*$", text, re.M):
             for mod in m.group(1).split():
                 todo.append(mod.replace(".", "/") + ".v")
+        for m in re.finditer(r"Require\s+(?:Import|Export)\s+((?:Ropt\.[\w.]+\s*)+)", text):
+            for mod in m.group(1).split():
+                todo.append(mod.rstrip(".")[5:].replace(".", "/") + ".v")
     return seen
